@@ -43,6 +43,8 @@ func leanTy(t gty) string {
 		return "Int64"
 	case "bool":
 		return "Bool"
+	case "str":
+		return "String"
 	}
 	panic("translate: no Lean type for " + string(t))
 }
@@ -66,6 +68,8 @@ func goTy(e ast.Expr) gty {
 		return "i64"
 	case "bool":
 		return "bool"
+	case "string":
+		return "str"
 	case "float64":
 		return "f64"
 	case "float32":
@@ -92,6 +96,7 @@ type trans struct {
 	psigs              map[string]psig           // translated stream functions
 	hoisted            map[*ast.CallExpr]string  // stream calls already bound to a name
 	callbacks          map[string][]gty          // function parameters that draw from the stream: their result types
+	optFields          map[string]gty            // atomic.Pointer[X] fields of the receiver, read with Load(): an Option
 	listFields         map[string]gty            // slice fields of the receiver: element type ("cb:<ty>" for a slice of generators)
 	hoistedIdx         map[*ast.IndexExpr]string // elements of slice fields already bound to a name
 	streamOwner        string                    // the *T parameter through which the stream is reached
@@ -198,6 +203,9 @@ func (t *trans) expr(e ast.Expr, want gty) (string, gty) {
 	case *ast.ParenExpr:
 		return t.expr(x.X, want)
 	case *ast.BasicLit:
+		if x.Kind == token.STRING {
+			return x.Value, "str"
+		}
 		if x.Kind == token.FLOAT && fxMode {
 			return fmt.Sprintf("(Go.FX.lit %q)", x.Value), "f64"
 		}
@@ -1092,7 +1100,7 @@ func emitTranslated(p *pkgInfo) (out string, err error) {
 	b.WriteString("\n")
 	b.WriteString(t.exprFn("findBugSeedStep", "seed of the next test case in findBug", seedRhs, et, "u64"))
 	b.WriteString("\n/-! ### functions on the bit stream, in continuation-passing style over `Prog` -/\n\n")
-	for _, fn := range []string{"genFloat01", "genGeom", "genUintNNoReject", "genUintNUnbiased", "genUintNBiased", "genUintN", "genUintRange", "flipBiasedCoin", "genIntRange", "genIndex", "find", "filteredGen.maybeValue", "filteredGen.value", "customGen.value", "mappedGen.value", "sampledGen.value", "oneOfGen.value"} {
+	for _, fn := range []string{"genFloat01", "genGeom", "genUintNNoReject", "genUintNUnbiased", "genUintNBiased", "genUintN", "genUintRange", "flipBiasedCoin", "genIntRange", "genIndex", "find", "filteredGen.maybeValue", "filteredGen.value", "customGen.value", "mappedGen.value", "sampledGen.value", "oneOfGen.value", "Generator.value"} {
 		b.WriteString(t.progFunction(fn, true))
 		b.WriteString("\n")
 	}
